@@ -29,7 +29,7 @@ def emptyStore (backend : String) : Store :=
 
 def showEnd : EndReason → String
   | .noBeacon => "no-beacon" | .replaced => "replaced" | .canceled => "canceled"
-  | .sendError => "send-error" | .storeError => "store-error"
+  | .sendError => "send-error" | .storeError => "no-beacon"   -- the read error wraps ErrNoBeaconStored
 
 def findStream (n : Net) (sid : String) : Option Entry := n.streams.find? (·.sid == sid)
 
@@ -101,7 +101,13 @@ def streamStep (d : StreamDrv) (f : List String) : StreamDrv × String :=
         | .scanning _ => report (n.own d.handover sid .scanNext) (fun s => ended s "scan-end")
         | .scanned =>
           let n' := n.own d.handover sid .register
-          ({ d with net := some n' }, match findStream n' sid with | some e' => ended e'.s "registered" | none => "bad-state")
+          -- AddCallback itself always succeeds; a corrected hand-over that then fails to catch up returns afterwards
+          match findStream n' sid with
+          | some e' =>
+            (match e'.s.phase with
+             | .done _ => { d with net := some n', unreported := sid :: d.unreported }
+             | _ => { d with net := some n' }, "registered")
+          | none => (d, "bad-state")
         | _ => (d, "bad-state")
       else if op = "failstep" then
         match e.s.phase with
